@@ -63,7 +63,7 @@ func (e *Engine) isFinal(key string) bool {
 			}
 		}
 	}
-	return e.finals[key] || key == "chan#closedhere"
+	return e.finals[key] || key == "chan#closedhere" || key == "chan#holds"
 }
 
 func (e *Engine) heapBase(s *State, key string, so *Sort) *Term {
